@@ -59,7 +59,7 @@ def run(ctx):
     ctx._phase("s2c_sim", t0)
     t0 = time.time()
     # 3. code -> spec: recorded runs under random environments
-    n = ctx.pick(300, 6000)
+    n = ctx.pick(300, 4000)
     maxn, maxpid = 6, 60
     jobs = [(i + 1, ctx.seed * 1000003 + i, maxn, maxpid, ctx.pick(60, 120)) for i in range(n)]
     traces = framework.pool_map(random_supervisor_trace, jobs)
